@@ -47,6 +47,15 @@ def main():
     if a.replay:
         with open(a.replay) as f:
             doc = json.load(f)
+        env_ = (doc.get("replay") or {}).get("_env") or {} if isinstance(doc.get("replay"), dict) else {}
+        if env_.get("optimize") and not sys.flags.optimize:
+            os.execv(sys.executable, [sys.executable, "-O"] + sys.argv)       # the witness was found under `python -O`
+        if env_.get("lib_warnings_as_errors"):
+            import warnings
+            warnings.filterwarnings("error", module=r"windpyutils(\..*)?")
+        if env_.get("debug_logging"):
+            import logging
+            logging.basicConfig(level=logging.DEBUG, stream=open(os.devnull, "w"), force=True)
         violated, text = mod.replay(doc)
         print(text)
         if violated:
